@@ -54,10 +54,15 @@ def val(t):
 
 @st.composite
 def cases_(draw):
-    pk = draw(st.sampled_from([None, None, ['k1'], ['k1', 'k2']]))
+    pk = draw(st.sampled_from([None, None, ['k1'], ['k1', 'k2'], ['rid']]))
     vnames = draw(st.lists(st.sampled_from(sorted(VALS)), min_size=1, max_size=3, unique=True))
     fields = [{'name': 'k1', 'type': 'string'}, {'name': 'k2', 'type': 'integer'}] + \
              [{'name': v, 'type': VALS[v]} for v in vnames]
+    # 'rid' class: the primary key is a separate unique row id, updates use explicit keys that differ from it
+    rid_class = pk == ['rid']
+    if rid_class:
+        fields.append({'name': 'rid', 'type': 'integer'})
+    next_rid = [1]
     n = draw(st.integers(1, 5))
     dumps = []
     keys_in_table = set()
@@ -66,7 +71,9 @@ def cases_(draw):
         mode = draw(st.sampled_from(modes))
         ukeys = None
         if mode == 'update':
-            if pk and draw(st.booleans()):
+            if rid_class:
+                ukeys = ['k1']                    # explicit keys take precedence over the primary key
+            elif pk and draw(st.booleans()):
                 ukeys = None                      # fall back to the primary key
             else:
                 ukeys = draw(st.sampled_from([['k1'], ['k1', 'k2']]))
@@ -83,12 +90,20 @@ def cases_(draw):
             keys_in_table = set()
         for _ in range(k):
             key = (draw(st.sampled_from(K1)), draw(st.sampled_from(K2)))
-            if pk and eff_mode in ('rewrite', 'append'):
+            if rid_class:
+                # k1 stays unique in the table (so that an update by k1 touches at most one row)
+                if key[0] in {u[0] for u in used} or (eff_mode == 'append' and key[0] in {kk[0] for kk in keys_in_table}):
+                    continue
+                used.add((key[0],))
+            elif pk and eff_mode in ('rewrite', 'append'):
                 pkv = tuple(key[:len(pk)])
                 if pkv in used or (eff_mode == 'append' and pkv in {kk[:len(pk)] for kk in keys_in_table}):
                     continue
                 used.add(pkv)
             row = {'k1': key[0], 'k2': key[1]}
+            if rid_class:
+                row['rid'] = next_rid[0]
+                next_rid[0] += 1
             for v in vnames:
                 row[v] = draw(val(VALS[v]))
             rows.append(row)
@@ -132,7 +147,8 @@ def read_table(engine_url, fields):
                 continue
             t = types.get(k)
             if t in ('array', 'object') and isinstance(v, str):
-                r[k] = json.loads(v)
+                # a null value has to be stored as SQL NULL, not as the JSON text 'null'
+                r[k] = json.loads(v) if v != 'null' else 'JSON-TEXT-null'
             elif t == 'date' and isinstance(v, str):
                 r[k] = datetime.date.fromisoformat(v[:10])
             elif t == 'number':
